@@ -313,7 +313,7 @@ def run(ctx):
                 'samples with dyadic increasing phases vs exact rational interpolation, and linear-in-phase quantities under interp_kind linear / slinear / quadratic / cubic; '
                 'non-trivial = has a gap or >= 2 cycles / populated last bin / extrapolated grid points'
                 % (maxlen, 4 if ctx.quick() else 6, 60 if ctx.quick() else 400))
-    ctx.proof(extra=['props/Prop_Tie_Cyclestat.v', 'props/Prop_Tie_Rest.v', 'props/Prop_Tie_Cyciter.v', 'props/Prop_Tie_Cycgen.v', 'props/Prop_Tie_Ctrl.v'])  # translation tie: program regenerated from the source + refinement theorems
+    ctx.proof(extra=['props/Prop_Tie_Cyclestat.v', 'props/Prop_Tie_Rest.v', 'props/Prop_Tie_Cyciter.v', 'props/Prop_Tie_Cycgen.v', 'props/Prop_Tie_Ctrl.v', 'props/Prop_Tie_Gcp.v'])  # translation tie: program regenerated from the source + refinement theorems
     # (1)
     lvs = label_vectors(maxlen)
     for _ in range(100 if ctx.quick() else 3000):
